@@ -17,7 +17,15 @@ use std::collections::{BTreeMap, BTreeSet};
 use std::path::{Path, PathBuf};
 use std::process::Command;
 
-pub const SHARDS: usize = 16;
+/// Number of harness crates: 16 in quick; 64 in thorough (about 10^4 states), so that one
+/// rustc invocation stays near the size of a quick shard; thorough builds also run 8 rustc
+/// processes at a time (memory).
+pub fn shards(tier: Tier) -> usize {
+    match tier {
+        Tier::Quick => 16,
+        Tier::Thorough => 64,
+    }
+}
 
 pub struct Harness {
     pub dir: PathBuf,
@@ -29,6 +37,10 @@ pub struct Harness {
     pub excluded: Vec<(usize, String, String)>,
     pub modules: usize,
     pub build_s: f64,
+    pub shards: usize,
+    pub thorough: bool,
+    /// cargo target directory of the harness
+    pub target: String,
 }
 
 fn write_if_changed(p: &Path, content: &str) {
@@ -214,9 +226,26 @@ fn rust_extra(_pruned: &Desc, inl: &Desc) -> bool {
 }
 
 pub fn prepare(tier: Tier) -> Harness {
-    let e = explore(tier);
-    let sel = select::select(&e, tier, Lang::Rust, &rust_extra);
-    let dir = PathBuf::from(format!("{VERIF_DIR}/work/rust_{}", tier_name(tier)));
+    prepare_on(tier, None)
+}
+
+/// `only`: a harness for exactly these states (single-source / replay mode: one shard crate in
+/// its own directory and cargo target directory) instead of the explored and selected ones.
+pub fn prepare_on(tier: Tier, only: Option<Vec<Selected>>) -> Harness {
+    let single = only.is_some();
+    let (e, sel) = match only {
+        Some(states) => (pdlmc_core::graph::Explored::default(), select::Selection { states, strata: vec![] }),
+        None => {
+            let e = explore(tier);
+            let sel = select::select(&e, tier, Lang::Rust, &rust_extra);
+            (e, sel)
+        }
+    };
+    eprintln!("rust engine: {} states selected of {} explored", sel.states.len(), e.states.len());
+    if std::env::var("PDLMC_SELECT_ONLY").is_ok() {
+        std::process::exit(0);
+    }
+    let dir = PathBuf::from(if single { format!("{VERIF_DIR}/work/rust_single") } else { format!("{VERIF_DIR}/work/rust_{}", tier_name(tier)) });
     std::fs::create_dir_all(&dir).expect("mkdir");
     // generate the modules with the real backend
     let gens: Vec<(usize, Vec<(bool, Result<String, String>, Desc)>)> = sel
@@ -243,14 +272,15 @@ pub fn prepare(tier: Tier) -> Harness {
     let cache_path = dir.join("rustc_rejected.json");
     let rejected: BTreeMap<String, (String, String)> =
         std::fs::read_to_string(&cache_path).ok().and_then(|s| serde_json::from_str(&s).ok()).unwrap_or_default();
-    let mut shard_mods: Vec<Vec<String>> = vec![vec![]; SHARDS];
-    let mut shard_tables: Vec<String> = vec![String::new(); SHARDS];
+    let n_shards = if single { 1 } else { shards(tier) };
+    let mut shard_mods: Vec<Vec<String>> = vec![vec![]; n_shards];
+    let mut shard_tables: Vec<String> = vec![String::new(); n_shards];
     let mut modules = 0;
     let prev_excluded: BTreeSet<(usize, String)> = BTreeSet::new();
     let _ = prev_excluded;
     for (id, v) in &gens {
         let st = &sel.states[*id];
-        let shard = id % SHARDS;
+        let shard = id % n_shards;
         for (big, code, inl) in v {
             let en = if *big { "be" } else { "le" };
             let mname = format!("m{id}_{en}");
@@ -298,13 +328,13 @@ pub fn prepare(tier: Tier) -> Harness {
     write_if_changed(&dir.join("owners.json"), &serde_json::to_string(&owners).unwrap());
     let states_json = serde_json::to_string(&sel.states).unwrap();
     write_if_changed(&dir.join("states.json"), &states_json);
-    let members: Vec<String> = (0..SHARDS).map(|i| format!("\"shard_{i:02}\"")).collect();
+    let members: Vec<String> = (0..n_shards).map(|i| format!("\"shard_{i:02}\"")).collect();
     write_if_changed(&dir.join("Cargo.toml"), &WS_CARGO.replace("MEMBERS", &members.join(", ")));
     write_if_changed(&dir.join(".cargo/config.toml"), "[net]\noffline = true\n");
     if !dir.join("Cargo.lock").exists() {
         std::fs::copy(format!("{VERIF_DIR}/mc/Cargo.lock"), dir.join("Cargo.lock")).ok();
     }
-    for i in 0..SHARDS {
+    for i in 0..n_shards {
         let sd = dir.join(format!("shard_{i:02}"));
         write_if_changed(&sd.join("Cargo.toml"), &shard_cargo(i));
         write_if_changed(&sd.join("src/main.rs"), SHARD_MAIN);
@@ -341,18 +371,30 @@ pub fn prepare(tier: Tier) -> Harness {
         excluded,
         modules,
         build_s: 0.0,
+        shards: n_shards,
+        thorough: tier == Tier::Thorough,
+        target: if single { format!("{VERIF_DIR}/work/target-rust-single") } else { target_dir(tier == Tier::Thorough) },
     }
 }
 
 /// Build the harness; modules that rustc rejects are excluded (and reported) and the build is
 /// repeated. Returns false on a machinery failure.
+/// one cargo target directory per tier (the shard crates of the two tiers have the same names)
+fn target_dir(thorough: bool) -> String {
+    if thorough {
+        format!("{VERIF_DIR}/work/target-rust-thorough")
+    } else {
+        format!("{VERIF_DIR}/work/target-rust")
+    }
+}
+
 pub fn build(h: &mut Harness) -> bool {
     let t0 = std::time::Instant::now();
     for round in 0..6 {
         let out = Command::new("cargo")
-            .args(["build", "--release", "--offline", "--message-format=short"])
+            .args(["build", "--release", "--offline", "--message-format=short", "-j", if h.thorough { "8" } else { "16" }])
             .current_dir(&h.dir)
-            .env("CARGO_TARGET_DIR", format!("{VERIF_DIR}/work/target-rust"))
+            .env("CARGO_TARGET_DIR", &h.target)
             .env("CARGO_NET_OFFLINE", "true")
             .env("RUSTFLAGS", "-Awarnings")
             .output();
@@ -419,7 +461,7 @@ pub fn build(h: &mut Harness) -> bool {
                 std::fs::read_to_string(&cache_path).ok().and_then(|s| serde_json::from_str(&s).ok()).unwrap_or_default();
             for ((id, en, _), line) in &bad {
                 let mname = format!("m{id}_{en}");
-                let shard = id % SHARDS;
+                let shard = id % h.shards;
                 let code = std::fs::read_to_string(h.dir.join(format!("shard_{shard:02}/src/gen/{mname}.rs"))).unwrap_or_default();
                 rejected.insert(mname, (format!("{:016x}", fnv1a(code.as_bytes())), format!("rustc: {line}")));
             }
@@ -427,7 +469,7 @@ pub fn build(h: &mut Harness) -> bool {
         }
         for ((id, en, _shard), line) in &bad {
             h.excluded.push((*id, en.clone(), format!("rustc: {line}")));
-            let shard = id % SHARDS;
+            let shard = id % h.shards;
             let sd = h.dir.join(format!("shard_{shard:02}"));
             let mname = format!("m{id}_{en}");
             // drop the module from mod.rs and table.rs
@@ -472,7 +514,7 @@ pub struct Merged {
 }
 
 fn run_task(h: &Harness, shard: usize, task: usize, prop: &str, tier: Tier, states: &[usize]) -> std::io::Result<std::process::Output> {
-    let bin = format!("{VERIF_DIR}/work/target-rust/release/shard_{shard:02}");
+    let bin = format!("{}/release/shard_{shard:02}", h.target);
     let journal = h.dir.join(format!("journal_{shard:02}_{task}.txt"));
     let _ = std::fs::remove_file(&journal);
     let ids: Vec<String> = states.iter().map(|x| x.to_string()).collect();
@@ -523,8 +565,8 @@ pub fn run_shards(h: &Harness, prop: &str, tier: Tier) -> Option<Merged> {
     let excluded: BTreeSet<usize> = h.excluded.iter().map(|x| x.0).collect();
     let _ = excluded;
     let mut tasks: Vec<(usize, usize, Vec<usize>)> = vec![];
-    for shard in 0..SHARDS {
-        let ids: Vec<usize> = h.states.iter().map(|s| s.id).filter(|id| id % SHARDS == shard).collect();
+    for shard in 0..h.shards {
+        let ids: Vec<usize> = h.states.iter().map(|s| s.id).filter(|id| id % h.shards == shard).collect();
         for (k, chunk) in ids.chunks(6).enumerate() {
             tasks.push((shard, k, chunk.to_vec()));
         }
@@ -632,9 +674,14 @@ fn death_triggers(inl: &Desc) -> Vec<&'static str> {
 }
 
 pub fn check(prop: &str, tier: Tier) -> i32 {
+    check_on(prop, tier, None)
+}
+
+pub fn check_on(prop: &str, tier: Tier, only: Option<Vec<Selected>>) -> i32 {
     let mut ev = Evidence::new(prop, tier_name(tier));
     let t0 = std::time::Instant::now();
-    let mut h = prepare(tier);
+    let single = only.is_some();
+    let mut h = prepare_on(tier, only);
     let t_prepare = t0.elapsed().as_secs_f64();
     if !build(&mut h) {
         return 2;
@@ -652,6 +699,7 @@ pub fn check(prop: &str, tier: Tier) -> i32 {
         return 2;
     }
     let mut rep = Reporter::new(prop);
+    rep.dry = single;
     for (sig, n, detail) in &merged.violations {
         for _ in 0..1 {
             rep.report(Violation { property: prop.into(), sig: sig.clone(), detail: detail.clone() });
@@ -665,6 +713,13 @@ pub fn check(prop: &str, tier: Tier) -> i32 {
         // the other three backends (out of process), see c17x.rs
         let excluded: BTreeSet<usize> = h.excluded.iter().map(|x| x.0).collect();
         if let Err(e) = crate::c17x::other_backends(tier, &h.states, &excluded, &mut rep, &mut extra_counters) {
+            eprintln!("machinery: {e}");
+            return 2;
+        }
+    }
+    if prop == "C15" {
+        // Python from_int over the same enum declarations (out of process), see c15x.rs
+        if let Err(e) = crate::c15x::python_leg(tier, &h.states, &mut rep, &mut extra_counters) {
             eprintln!("machinery: {e}");
             return 2;
         }
@@ -685,13 +740,16 @@ pub fn check(prop: &str, tier: Tier) -> i32 {
     for (k, v) in extra_counters {
         *counters.entry(k).or_default() += v;
     }
-    let validated: u64 = ["decode-inputs", "values", "parent-values", "child-values", "integers", "python-twin-values", "cxx-twin-values", "java-twin-values"].iter().map(|k| counters.get(*k).copied().unwrap_or(0)).sum();
+    let validated: u64 = ["decode-inputs", "values", "parent-values", "child-values", "integers", "python-twin-values", "cxx-twin-values", "java-twin-values", "python-integers"].iter().map(|k| counters.get(*k).copied().unwrap_or(0)).sum();
     ev.set("traces_validated_against_impl", json!(validated));
     ev.set("outcomes", json!(counters));
     ev.set("samples", json!(merged.samples));
     ev.set("rule", json!(rule_text(prop)));
     ev.assumptions = assumptions(prop);
     let code = rep.finish(&mut ev);
+    if single {
+        return code;
+    }
     let distinct = counters.iter().filter(|(k, v)| k.starts_with("outcome:") && **v > 0).count();
     ev.set("distinct_outcome_classes", json!(distinct));
     ev.write(&format!("{VERIF_DIR}/evidence"));
@@ -724,7 +782,7 @@ fn rule_text(prop: &str) -> &'static str {
         "C04" => "for every type of a deterministically parseable description and every input of the C01 input set (reduced: B-strings <= 3/4, 40 values' mutants): decode_full accepts iff the reference decoder accepts, with equal values; re-encoding an accepted input gives the canonical reference encoding; when the reference (collect mode) finds exactly one fault kind the DecodeError variant must name it",
         "C05" => "for every type and every explored value including out-of-range ones (2^w, backing max, one element/byte too many, unequal element sizes, contradictory flags): encode never panics, unrepresentable => the matching EncodeError variant, representable => Ok, and bytes written == encoded_len()",
         "C06" => "for every parent type of an unambiguous inheritance tree: parent values = every Ok decode of the input set + Parent::try_from(child value) for every explored child value; specialize() == model.specialize (child / Err / None, with the size rule); Child::try_from fails with ConstraintValueError iff the model finds a violated constraint; Parent::try_from(child) carries the constraint values, encodes to the child's bytes and converts back",
-        "C15" => "for every enum of the compiled states: all integers of the backing type for backing types <= 16 bits, otherwise 0, max, 2^w, backing max, every power of two +-1 and x-1, x, x+1 around every tag value and range bound: TryFrom accepts iff the reference does, the variant is the named tag or the range/default variant carrying x, conversion back and every widening From give x",
+        "C15" => "for every enum of the compiled states: all integers of the backing type for backing types <= 16 bits, otherwise 0, max, 2^w, backing max, every power of two +-1 and x-1, x, x+1 around every tag value and range bound: TryFrom accepts iff the reference does, the variant is the named tag or the range/default variant carrying x, conversion back and every widening From give x. Python: Enum.from_int(x) of the generated module for every distinct enum declaration of those states the Python backend supports: all x < 2^w for w <= 12, boundary neighbourhoods beyond: accepted iff the reference accepts, a member exactly when a top-level tag has that value, the integer itself otherwise, an EnumValueError (DecodeError) when rejected",
         "C17" => "for every type and explored value: the little- and big-endian modules encode to the same length and the big-endian bytes equal the little-endian bytes with every chunk of the model's layout (bit-field group, multi-byte array element, optional scalar/enum, sized custom field) reversed. Python, C++ and Java: for every 6th (quick) / every (thorough) state of each backend's supported set the generated little- and big-endian code serializes every explored value out of process; same oracle on the backend's own bytes (the model contributes only the chunk map)",
         _ => "",
     }
